@@ -165,13 +165,18 @@ def eval_doc(args):
 def run(tier, seed, open_findings):
     rng = random.Random(seed); n = 4000 if tier == 'thorough' else 80
     docs = [gen(rng) for _ in range(n)]
+    # a namespace declaration on a CHILD of the root (data level 1): variants of the first generated documents
+    L1 = [d.replace('<t:item ', '<t:item xmlns="urn:t" ', 1) for d in docs[:6] if '<u>plain</u>' in d][:3]
+    docs = docs + L1
     jobs = [(ver, d, seed * 1000 + i) for i, d in enumerate(docs) for ver in ('1.0', '1.1')]
     res = pmap(eval_doc, jobs)
     fails = []; known = {}
+    K1 = 'C05-declarations-on-a-child-of-the-root-taken-as-root-declarations'
     for r, j in zip(res, jobs):
         for b in r['bad']:
             if b[0] == 'soundness-identity' and 'C05-encode-skips-identity-constraints' in open_findings:
                 known['C05-encode-skips-identity-constraints'] = known.get('C05-encode-skips-identity-constraints', 0) + 1; continue
+            if r['doc'] in L1 and 'decode/encode raised XMLSchemaValidationError' in str(b[1]) and K1 in open_findings: known[K1] = known.get(K1, 0) + 1; continue
             fails.append(dict(case=dict(doc=r['doc'], ver=r['ver'], mseed=j[2]), observed=list(b), required='valid, structurally equal, same data; strict encode raises or returns valid XML'))
     cases = sum(r['cases'] for r in res)
     return [result('C05.roundtrip_and_encode_soundness', f'{len(docs)} generated valid documents x 2 classes x (5 converters round trip + 6 mutated data sets for strict encode)', cases, fails, known=known,
